@@ -987,6 +987,11 @@ M("c15-evaluator-default-raises-again", "C15", COMPILER,
 
     if not result_stack:''', "R15.1", "_build_evaluator_iterative")
 
+M("c15-iterative-variable-read-as-python-float", "C15", COMPILER,
+  '''            idx = var_indices[node.name]
+            result_stack.append(lambda x, i=idx: x[i])''', '''            idx = var_indices[node.name]
+            result_stack.append(lambda x, i=idx: x.item(i))''', "R15.2", "evaluator[Variable]")
+
 # ----------------------------------------------------------------------------- C16
 M("c16-binaryop-get-variables-left-only", "C16", EXPR,
   '''        return self.left.get_variables() | self.right.get_variables()''', '''        return self.left.get_variables()''', "R16.1", "BinaryOp.get_variables")
